@@ -67,7 +67,24 @@ SPEC = [
     "intent(in) :: u",
     "volatile :: vi2",
     "bind(c, name='cname') :: cvar",
+    "100 format (12habcdefghijkl, i3, 3hxyz)",
+    "101 format (1x, 2(i3, 1x), /, a, t10, f8.3, es12.4e2, 'lit', 2p, :)",
     "integer, bind(c) :: cint",
+]
+
+# USE statements (must precede every other specification statement; fgen places them first)
+USES = [
+    "use m",
+    "use m, only: aa",
+    "use m, only: aa, bb",
+    "use m, only: loc => aa",
+    "use m, loc => aa",
+    "use, intrinsic :: iso_c_binding, only: c_int",
+    "use m, only: operator(+), assignment(=)",
+    "use m, only: read(formatted), write(unformatted)",
+    "use m, only: operator(.myop.)",
+    "use, non_intrinsic :: m",
+    "use m, only:",
 ]
 
 SPEC_F08 = [
